@@ -18,6 +18,7 @@ import FpgoVerif.Props.C19
 #print axioms FpgoVerif.C19.C19_sortedList_heap
 #print axioms FpgoVerif.C19.C19_alias_variant_modifies_input
 #print axioms FpgoVerif.C19.C19_sortInPlace
+#print axioms FpgoVerif.C19.C19_nil_comparator_strictWeak
 #print axioms FpgoVerif.C19.C19_builder_code_shape
 #print axioms FpgoVerif.C19.C19_builder_fork
 #print axioms FpgoVerif.C19.C19_forked_builders
